@@ -137,6 +137,17 @@ def is_digit_term(c):
     return z3.And(c >= 48, c <= 57)
 
 
+def all_elems_of(x, pred_term_fn):
+    """forall elements of the (symbolic) sequence value x: a finite conjunction when a static
+    length bound is known, a quantified formula otherwise."""
+    t = seq_term(x)
+    k = getattr(x, "maxlen", None)
+    if k is not None:
+        n = z3.Length(t)
+        return z3.And(n <= k, *[z3.Implies(n > q, pred_term_fn(t[q])) for q in range(k)])
+    return all_elems(t, pred_term_fn)
+
+
 def all_elems(seq, pred_term_fn):
     i = z3.Int(ctx().fresh_name("q"))
     return z3.ForAll([i], z3.Implies(z3.And(i >= 0, i < z3.Length(seq)), pred_term_fn(seq[i])))
@@ -403,15 +414,24 @@ def to_int(interp, x=0, base=10):
         t = x.term
         if base == 10:
             axiom("int(digits): ASCII digit strings parse to their decimal value (other inputs: outside the model)")
-            ok = z3.And(z3.Length(t) > 0, all_elems(t, is_digit_term))
+            ok = z3.And(z3.Length(t) > 0, all_elems_of(x, is_digit_term))
             if interp.truth(mk_bool(ok)):
                 return mk_num(dec_val()(t))
             raise Unsupported("int() of a string not known to be all digits")
         if base == 16:
             axiom("int(hexdigits,16): ASCII hex digit strings parse to their base-16 value")
             ishex = lambda c: z3.Or(z3.And(c >= 48, c <= 57), z3.And(c >= 65, c <= 70), z3.And(c >= 97, c <= 102))
-            ok = z3.And(z3.Length(t) > 0, all_elems(t, ishex))
+            ok = z3.And(z3.Length(t) > 0, all_elems_of(x, ishex))
             if interp.truth(mk_bool(ok)):
+                k = getattr(x, "maxlen", None)
+                if k is not None:
+                    # closed form for short strings: sum of digit values
+                    hv = lambda c: z3.If(c <= 57, c - 48, z3.If(c <= 70, c - 55, c - 87))
+                    n = z3.Length(t)
+                    v = z3.IntVal(0)
+                    for q in range(k):
+                        v = z3.If(n > q, v * 16 + hv(t[q]), v)
+                    return mk_num(v)
                 return mk_num(hex_val()(t))
             raise Unsupported("int(,16) of a string not known to be all hex digits")
     if is_sym(x) or is_sym(base):
@@ -525,9 +545,15 @@ def seq_method(interp, recv, name, args, kwargs):
         axiom("bytes.isdigit(): non-empty and every byte in 0x30..0x39")
         if kind != "bytes":
             raise Unsupported("str.isdigit (Unicode digits)")
-        return mk_bool(z3.And(n > 0, all_elems(t, is_digit_term)))
+        return mk_bool(z3.And(n > 0, all_elems_of(recv, is_digit_term)))
     if name == "join":
         (parts,) = args
+        if isinstance(parts, core.SChunks):
+            if is_sym(recv) or len(recv):
+                raise Unsupported("join of a chunk list with a non-empty separator")
+            if parts.kind != kind:
+                raise TypeError("sequence item: expected %s" % kind)
+            return parts.joined
         if isinstance(parts, (list, tuple)):
             r = None
             for i, p in enumerate(parts):
@@ -563,7 +589,7 @@ def seq_method(interp, recv, name, args, kwargs):
         if enc in ("ascii", "us-ascii", "utf-8", "utf8", "charmap", "latin-1", "iso-8859-1", "latin1"):
             axiom("ascii/utf-8/latin-1 codecs are the identity on code points < 128")
             hi = 256 if enc in ("charmap", "latin-1", "iso-8859-1", "latin1") else 128
-            ok = True if core.is_ascii(recv) else mk_bool(all_elems(t, lambda c: z3.And(c >= 0, c < hi)))
+            ok = True if core.is_ascii(recv) else mk_bool(all_elems_of(recv, lambda c: z3.And(c >= 0, c < hi)))
             if interp.truth(ok):
                 return core._seq_value(t, "str" if name == "decode" else "bytes", core.is_ascii(recv))
             if enc in ("ascii", "us-ascii"):
@@ -718,6 +744,28 @@ def percent_format(interp, fmt, arg):
     for p in out:
         r = r + p
     return r
+
+
+def format_int(interp, v, spec):
+    """format(v, spec) for a symbolic int and the specs '', 'd', 'x', 'X', '02x', '02X' as a symbolic str;
+    None when the spec is not modelled."""
+    if spec in ("02X", "02x"):
+        axiom("format(n, '02X'): two hex digits for 0 <= n <= 255")
+        if not interp.truth(band(v >= 0, v <= 255)):
+            raise Unsupported("format(n, %r) outside 0..255" % spec)
+        a = 55 if spec == "02X" else 87
+        hi, lo = v.term / 16, v.term % 16
+        dig = lambda d: z3.If(d < 10, 48 + d, a + d)
+        return SSeq(z3.Concat(z3.Unit(dig(hi)), z3.Unit(dig(lo))), "str", True)
+    if spec in ("", "d"):
+        if not interp.truth(v >= 0):
+            return None
+        return SSeq(decenc()(v.term), "str", True)
+    if spec == "x":
+        if not interp.truth(v >= 0):
+            return None
+        return SSeq(hexenc()(v.term), "str", True)
+    return None
 
 
 def seq_repeat(interp, a, b):
